@@ -11,6 +11,7 @@ Decided (structural):
  R4 K6  ClientState::action runs on get_linear_perspective(collapse_heads(get_heads().clone())).
  R5 K6  Transaction::commit stores as fact cache either the single head's facts() or the index
         returned by evaluate_braid over exactly the committed head locations.
+ R6 K6  last_common_ancestor carries its running result through the fold over all heads.
 Not decided: equality of the fact cache with the facts at the collapsed head (value-level)."""
 from rules.core import pat, rt
 from rules.core.facts import Operand, PASS_THROUGH
@@ -89,3 +90,37 @@ def run(F, rep, tier):
     facts_c = [c for c in cm.calls if c.name == "facts"]
     rep.check(len(cs) >= 1 and bool(facts_c) and all(cm.dominates(cs[0]["eq"], c.bb) for c in facts_c), "commit|single-head-shortcut-guard", "K2 guarded-by",
               "the head-facts shortcut is taken only when the committed set has exactly one head", site=cm.site())
+    lca_fold_rule(F, rep)
+
+
+def lca_fold_rule(F, rep):
+    """R6: the N-way commit braid and the pairwise collapse agree only if the braid's cutoff is a common
+    ancestor of *all* heads: last_common_ancestor must carry its running result through the fold
+    (lca := lca_pair(lca, h) for every head), not recompute it from neighbouring heads."""
+    B = "aranya_runtime::client::braiding::"
+    f = F.fn(B + "last_common_ancestor")
+    carried = False
+    n_calls = 0
+    # (a) fold / try_fold with the accumulator as one operand of lca_pair
+    for c in f.calls:
+        if c.is_("Iterator::try_fold", "Iterator::fold"):
+            for cl in f.closures_in_args(c, F):
+                for x in cl.calls:
+                    if x.is_(B + "lca_pair"):
+                        n_calls += 1
+                        ops = [cl.origins(a, through_calls=()) for a in x.args[1:]]
+                        if any("arg:2" in o for o in ops) and any("arg:3" in o for o in ops):
+                            carried = True
+    # (b) explicit loop with a loop-carried accumulator
+    for x in f.calls:
+        if x.is_(B + "lca_pair"):
+            n_calls += 1
+            for a in x.args[1:]:
+                if a.place is not None and x.dest is not None:
+                    srcs = f.backward_sources(a.place.local, through_calls=PASS_THROUGH)[1]
+                    if any(k == "call" and s is x for k, s in srcs):
+                        carried = True
+    rep.check(n_calls >= 1 and carried, "last_common_ancestor|accumulator-carried", "K6 provenance",
+              "last_common_ancestor folds lca_pair over all heads with the running result as one operand",
+              "last_common_ancestor does not carry its running result through the fold over the heads (lca_pair's operands do not include the previous result): with three or "
+              "more heads the braid's cutoff is only the ancestor of some of them, commands below it are dropped from the N-way braid and the fact cache disagrees with what an action sees", f.site())
